@@ -145,13 +145,11 @@ func GenCase(r *rand.Rand, prop string, thorough bool) *Case {
 		v, n := randVariant(r, 75)
 		c.Pkgs = append(c.Pkgs, PkgInit{Name: pkgNames[i], Variant: v, N: n})
 	}
-	if libv == "lib_badset" && r.IntN(2) == 0 {
+	if libv == "lib_badset" && r.IntN(3) > 0 {
 		// two packages failing with the very same (library-positioned) error in one invocation
-		k := 0
 		for i := range c.Pkgs {
-			if i > 0 && k < 2 && (Info(c.Pkgs[i].Variant).Class == ClassBad || r.IntN(3) == 0) {
+			if i == 1 || i == len(c.Pkgs)-1 {
 				c.Pkgs[i].Variant = "bad_libset"
-				k++
 			}
 		}
 	}
